@@ -66,6 +66,55 @@ claim('C11', 'unsafe-operation inventory from MIR with one obligation rule per k
       'quantify over all paths, callers and configurations.',
       'Safety contracts as written in the source; Rust aliasing model; compiler-generated unsafe is trusted', 'DESIGN.md §5 C11')
 
+claim('C03', 'provenance of the receiver chain in nth() and of the constructor arguments',
+      'Decides the flow clauses: gradual performance constructors build the inner gradual difficulty from exactly (difficulty, map); nth(state, n) '
+      'feeds n to the inner iterator, the caller state unmodified into .state(), the captured Difficulty into .difficulty() and the prefix '
+      'attributes into .performance(). Equality with the one-shot value is numeric and not decided.',
+      'exported MIR; next/last delegation is checked by C15-R1', 'DESIGN.md §5 C03')
+claim('C04', 'provenance of attribute sources, who-may-write on calculator attributes, pass-through check of 32 conversions',
+      'Decides the flow clauses: Map-case attributes come from self.difficulty.calculate_for_mode::<own mode>(own map); the attributes embedded in a '
+      'result are the unmodified calculator input; every attribute-to-builder conversion passes attrs / attrs.difficulty through untouched. '
+      'Numeric equality of the two paths is not decided.', 'exported MIR', 'DESIGN.md §5 C04')
+claim('C06', 'call-graph-scoped decoder discipline: bounded-parse dominance, clamp provenance, tandem-sort pairing, who-may-write on control point vectors, panic-API reachability',
+      'Decides the decoder discipline on every function reachable from the 11 parse_* methods and From<BeatmapState>: raw primitive parses are bound-tested '
+      'before use, the documented clamps are present on the produced fields, objects and sounds are permuted by one time-comparator sorter and pushed in '
+      'pairs, control point vectors change only through the binary-search add, no explicit panic API, entry points are pure delegations. '
+      'Arithmetic Assert terminators and rosu-map internals are not covered.',
+      'rosu-map 0.2.1 line driver and ParseNumber trusted', 'DESIGN.md §5 C06')
+claim('C08', 'arm summaries of representation matches with identifiers resolved against rosu-mods\' own constant table; who-may-call / who-may-read',
+      'Decides that the three mod representations answer alike arm by arm (14 has-mod accessors, 29 key-mod rows, HardRock reflection; legacy `false` allowed '
+      'iff GameModsLegacy has no such flag) and that mod-derived clock rate / attribute values are reachable only through the override-aware getters. '
+      'Numerical equality and lazer per-mod settings are not decided.', 'rosu-mods 0.3.1 semantics of contains/contains_intermode', 'DESIGN.md §5 C08')
+claim('C14', 'provenance of is_convert in every attribute construction (interprocedural through helpers) + who-may-write on Beatmap.is_convert',
+      'Decides only the is_convert clause: attributes report exactly the converted map\'s flag and only the converters set it (each with its own mode). '
+      'All counting clauses are arithmetic over runtime values and not decided.', 'exported MIR', 'DESIGN.md §5 C14')
+claim('C15', 'delegation shape check (single call, parameter pass-through, constants) and arm summaries of the enum wrappers',
+      'Decides the delegation clauses: next = nth(0), last = nth(usize::MAX), len = inner len, 24 wrapper arms forward to the same-named payload method '
+      'and re-wrap in their own variant, size_hint = (len, Some(len)). nth(n) = n+1 nexts and exhaustion behaviour are not decided.', 'exported MIR', 'DESIGN.md §5 C15')
+claim('C16', 'evaluated associated constants at use sites (loop step of the section accumulator), provenance of exported peaks, sibling preprocessing rule',
+      'Decides: the section length each of the 9 skills really advances by equals its mode\'s published SECTION_LEN (inherent shadowing resolved by rustc, '
+      'not by name); export and aggregation both close the open section through get_current_strain_peaks; strains() runs the same '
+      'DifficultyValues::calculate on the same preprocessed map as difficulty(). Finiteness and the numeric re-aggregation identity are not decided.',
+      'exported MIR + const evaluation', 'DESIGN.md §5 C16')
+claim('C17', 'provenance from builder output to calculator fields; setter/getter/output slot triangle by read-set of self fields',
+      'Decides the flow clauses: build() embeds hit_windows(); calculators copy AR/HP/hit windows from the builder configured with the converted map and '
+      'the Difficulty parameter; the builder\'s difficulty() takes every value from the same-named getter; each public setter feeds exactly the public '
+      'output of its name. Monotonicity / round trip / HR-EZ ordering are not decided.', 'exported MIR', 'DESIGN.md §5 C17')
+claim('C18', 'struct-delta provenance of setters, arm summaries of 92 dispatch arms against tcx method tables, doc-table parsing, field-map comparison',
+      'Decides: all 31 mode setters forward their own parameters to the same-named Difficulty setter; every Performance enum arm forwards per rename table or '
+      'is a no-op exactly when the payload type has no such method; clamp constants equal every documented Minimum/Maximum table; inspect / '
+      'into_difficulty are field-complete; setter, getter and inspect agree on one private slot. "Irrelevant setter leaves result untouched" beyond the '
+      'no-op arms is not decided.', 'doc comments as the documented bounds', 'DESIGN.md §5 C18')
+claim('C19', 'who-may-write, dominator/post-dominator pairing of sibling vector edits, must-pass-through to a time sort',
+      'Decides the structural part: catch convert touches only mode/is_convert; taiko convert edits objects and sounds in lock-step (same multiset, same paths, '
+      'same positions); all four hit_objects rewriters sort by start_time before returning; effect points change only through add. Column bounds, '
+      'durations and key-count range are not decided.', 'exported MIR', 'DESIGN.md §5 C19')
+claim('C20', 'absence of shared mutable state (effect scan), auto-trait table from rustc\'s trait solver in both sync settings, signature scan for handle escape, compile_fail witnesses (thorough)',
+      'Decides: no static mut / non-Freeze static / thread-local / lazy global / unsafe impl Send|Sync / thread use; value types are Send+Sync, osu/catch/mania '
+      'gradual types Send, taiko gradual types !Send without sync and Send with it; no RefCount/Weak/guard type appears in a public signature so the graph '
+      'moves as a whole; guard discipline excludes self-deadlock under RwLock. Schedules are irrelevant once these hold.',
+      'rustc Send/Sync checking; std Rc/RefCell/Arc/RwLock', 'DESIGN.md §5 C20')
+
 PENDING = ['C02', 'C03', 'C04', 'C05', 'C06', 'C07', 'C08', 'C10', 'C11', 'C12', 'C14', 'C15', 'C16', 'C17', 'C18',
            'C19', 'C20']
 
